@@ -407,10 +407,10 @@ Spec == Init /\ [][Next]_vars
 ---------------------------------------------------------------------------------------------
 (* properties of the reference itself *)
 PhaseNo == CASE phase = "pre" -> 0 [] phase = "main" -> 1 [] phase = "compact" -> 2 [] phase = "done" -> 3
-Rank == PhaseNo * 100000 + (IF phase = "compact" THEN cr ELSE i) * 100 + l
+Rank == PhaseNo * 400000000 + (IF phase = "compact" THEN cr ELSE i) * 20000 + l      \* words < 20000 letters, < 20000 words
 
 TypeOK == /\ phase \in {"pre", "main", "compact", "done"}
-          /\ i \in 1 .. (NArgs + 1) /\ l \in {0} \cup 3 .. 99
+          /\ i \in 1 .. (NArgs + 1) /\ l \in {0} \cup 3 .. 19999
           /\ (Scanning /\ l # 0) => (l <= Len(W) /\ IsShortWord(W))
           /\ \A k \in 1 .. NArgs : mark[k] \in {"keep", "gone", "any"}
           /\ (badOpen \/ badLo <= badHi) /\ badLo >= 0
@@ -419,7 +419,7 @@ TypeOK == /\ phase \in {"pre", "main", "compact", "done"}
 
 \* Terminates: every step strictly advances (pass, word, letter); the rank is bounded, so every reading ends
 Terminates == [][Rank' > Rank]_vars
-RankBounded == Rank <= 3 * 100000 + (NArgs + 1) * 100 + 99
+RankBounded == Rank <= 3 * 400000000 + (NArgs + 1) * 20000 + 19999
 
 \* BoolTouchesOnlyMask: a step changes only the bit of the boolean option under the cursor, and only in its own pass
 OwnedBits == { Tb[j].bit : j \in { q \in 1 .. NOpt : Tb[q].kind = "bool" } }
